@@ -10,6 +10,7 @@ import re
 from .. import classify, clock, drive, hist, world
 from ..oracle import refhash, xmlread
 
+TECHNIQUE = 'runtime monitoring: append-only / monotonicity checker over before/after snapshots of every ascmhl folder, injected clock, independent chain reader'
 LEVEL = "exploration"
 RULE = (
     "case = sequence of 2-14 create / create -sf runs (exit 0/10/11) interleaved with tree edits, flat or nested, frozen clock "
